@@ -363,6 +363,34 @@ bool Executor::native(State &s, CallBase *cb, Function *f, std::vector<Val> &a, 
     if (n == "pthread_mutex_lock" || n == "pthread_mutex_unlock" || n == "pthread_mutex_init" || n == "pthread_mutex_destroy" ||
         n == "__pthread_key_create" || n == "pthread_once") { retInt(0); return true; }
     if (n == "_ZNSt8ios_base4InitC1Ev" || n == "_ZNSt8ios_base4InitD1Ev") return true;
+    // ---------- iostream family: formatting is never a property subject; streams are inert, str() is empty ----------
+    {
+        std::string d = n.str();
+        bool isStream = d.find("basic_stringstream") != std::string::npos || d.find("basic_ostringstream") != std::string::npos ||
+                        d.find("basic_istringstream") != std::string::npos || d.rfind("_ZNSo", 0) == 0 || d.rfind("_ZNSi", 0) == 0 ||
+                        d.find("__ostream_insert") != std::string::npos || d.rfind("_ZStlsISt11char_traitsIcEERSt13basic_ostream", 0) == 0 ||
+                        d.rfind("_ZNSt9basic_iosIcSt11char_traitsIcEE", 0) == 0 || d.rfind("_ZNSt8ios_base", 0) == 0 || d.rfind("_ZNSt6locale", 0) == 0 ||
+                        d.rfind("_ZSt4endlIcSt11char_traitsIcEERSt13basic_ostream", 0) == 0;
+        if (isStream) {
+            nativeUse["iostream(inert)"]++;
+            if (d.find("3strEv") != std::string::npos && cb->arg_size() >= 2 && cb->hasStructRetAttr()) {
+                // std::string result = "": {ptr -> local buf, len 0, buf[0] = 0}
+                uint64_t r = a[0].lo;
+                Type *i64 = Type::getInt64Ty(M->getContext()), *i8 = Type::getInt8Ty(M->getContext());
+                if (!storeVal(s, mkPtr(r), i64, mkPtr(r + 16), cb) || !storeVal(s, mkPtr(r + 8), i64, mkInt(64, 0), cb) || !storeVal(s, mkPtr(r + 16), i8, mkInt(8, 0), cb)) { ended = true; return false; }
+                return true;
+            }
+            if ((d.find("stringstreamIcSt11char_traitsIcESaIcEEC") != std::string::npos) && !a.empty() && a[0].k == Val::INT) {
+                // constructor: zero the object so that the inlined destructor sees empty strings / null pointers
+                MemObj *o = s.mem.find(a[0].lo);
+                if (o && o->alive && o->kind == MemObj::STACK) { o = s.mem.writable(o); uint64_t off = a[0].lo - o->base; clearRange(o, off, o->size - off); memset(o->data.data() + off, 0, o->size - off); }
+            }
+            Type *rt = cb->getType();
+            if (rt->isPointerTy()) ret = a.empty() ? mkPtr(0) : a[0];
+            else if (rt->isIntegerTy()) ret = mkInt(rt->getIntegerBitWidth(), 0);
+            return true;
+        }
+    }
     if (n == "__errno_location") {
         static uint64_t errnoAddr = 0;
         if (!errnoAddr || !s.mem.find(errnoAddr)) errnoAddr = s.mem.alloc(8, MemObj::GLOBAL, "errno")->base;
